@@ -129,9 +129,11 @@ struct HStream {
       int id; R r; int idx = -1; bool started = false, completed = false, cb_live = false, in_cb_ctor = false, stop_in_ctor = false, pend_nat = false, pend_done = false;
       bool* destroyed_flag = nullptr;
       unifex::manual_lifetime<cb_t> cb;
+      long slot = -555555;   // the element is delivered from here (an object inside the next() operation state), by rvalue reference
       Op(int i, R&& rr) : id(i), r((R &&) rr) { op_born(this, "next()"); }
       Op(Op&&) = delete;
       ~Op() {
+        slot = -777777;      // a consumer that still reads the element after this operation was destroyed sees this
         op_died(this, "next()");
         if (destroyed_flag) *destroyed_flag = true;
         if (started && !completed) {
@@ -194,7 +196,8 @@ struct HStream {
         if (chan == VALUE) {
           long v = elem_value(I, s.pos++); s.delivered.push_back(v);
           SR_TR("src%d: next#%d -> value %ld", I, X, v);
-          unifex::set_value(std::move(r), (long)v);
+          slot = v;
+          unifex::set_value(std::move(r), std::move(slot));
         } else if (chan == ERROR) {
           s.ended = true; SR_TR("src%d: next#%d -> error", I, X);
           unifex::set_error(std::move(r), std::make_exception_ptr(SrcFailure{I, 0}));
